@@ -22,10 +22,18 @@ LineClauses(e) ==
       line_rows |-> rows = VisibleRows(ns, c, e.bl, divs),
       line_span |-> \A y \in rows : { p[1] : p \in { q \in lp : q[2] = y } } = 0..LineXMax(ns, c),
       line_colour |-> \A p \in lp : p[2] \in VisibleRows(ns, c, e.bl, divs) => p[3] = RowDivision(ns, c, e.bl, divs, p[2]) ]
+(* op = "seps": PlayField + PFDrawColumnLines alone; e.px are the non-background pixels *)
+SepClauses(e) ==
+    LET ns == e.notes  c == e.cfg  px == Px(e) IN
+    [ canvas |-> e.w = CanvasW(ns, c) /\ e.h = CanvasH(ns, c),
+      sep_rows |-> { p[2] : p \in px } = (IF GapXs(ns, c) = {} THEN {} ELSE SepRows(ns, c)),
+      sep_in_gaps |-> \A p \in px : p[1] \in GapXs(ns, c),
+      sep_gaps_filled |-> SepPixels(ns, c) \subseteq px ]
 Clauses(e) ==
     IF e.exc # "" THEN [ no_exc |-> FALSE ]
     ELSE IF e.op = "fold" THEN FoldClauses(e)
     ELSE IF e.op = "lines" THEN LineClauses(e)
+    ELSE IF e.op = "seps" THEN SepClauses(e)
     ELSE LET ns == e.notes  c == e.cfg  px == Px(e) IN
     [ canvas |-> e.w = CanvasW(ns, c) /\ e.h = CanvasH(ns, c),
       \* nothing is drawn outside the rectangles the notes are entitled to
